@@ -29,7 +29,7 @@ package auth
 // reports an error but still returns what it could decode; the controller
 // decides from this list whether there is a token to salt before the request
 // is forwarded, so a token that is present must never be overlooked here).
-//@ func Credentials.loadTokenFromCookie property C19
+//@ func Credentials.loadTokenFromCookie trustedframe property C19
 //@   modifies Credentials.Tokens mem:string
 //@ func Credentials.LoadTokensFromHTTPRequest property C19 safety -bounds,-nil
 //@   ghost q url.Values = nil
